@@ -13,11 +13,11 @@ theorem RegOk.trans {a b c : St} (h1 : RegOk a b) (h2 : RegOk b c) : RegOk a c :
 theorem RegOk.of_eq {s s' : St} (h : s'.registered = s.registered) : RegOk s s' := by
   intro hn; rw [h]; exact hn
 
-theorem callCb_reg (U : Universe) (s : St) (o : Obj) (m : String) (e : Entry) :
+theorem callCb_reg (U : Universe) [U.NoReenter] (s : St) (o : Obj) (m : String) (e : Entry) :
     (callCb U s o m e).1.registered = s.registered := by
-  unfold callCb; simp only; split <;> split <;> rfl
+  unfold callCb; simp only [Universe.NoReenter.noReenter]; split <;> split <;> rfl
 
-theorem lifecycle_reg (U : Universe) (s : St) (ev : String) (o : Obj) (m : Mapping) (ent : Option Ent) :
+theorem lifecycle_reg (U : Universe) [U.NoReenter] (s : St) (ev : String) (o : Obj) (m : Mapping) (ent : Option Ent) :
     (lifecycle U s ev o m ent).1.registered = s.registered := by
   unfold lifecycle
   split
@@ -26,7 +26,7 @@ theorem lifecycle_reg (U : Universe) (s : St) (ev : String) (o : Obj) (m : Mappi
     · rw [callCb_reg]; exact (ctrlRecord_fields U s ev o ent).2.2.2.2.2.1
     · split <;> rfl
 
-theorem attachEvents_regOk (U : Universe) (s : St) (o : Obj) (ent : Option Ent) :
+theorem attachEvents_regOk (U : Universe) [U.NoReenter] (s : St) (o : Obj) (ent : Option Ent) :
     RegOk s (attachEvents U s o ent).1 := by
   unfold attachEvents
   split
@@ -35,7 +35,7 @@ theorem attachEvents_regOk (U : Universe) (s : St) (o : Obj) (ent : Option Ent) 
     rw [lifecycle_reg]
     exact nodup_insertSorted _ _ hn
 
-theorem attachAll_regOk (U : Universe) (s : St) (e : Ent) (cs : List Obj) :
+theorem attachAll_regOk (U : Universe) [U.NoReenter] (s : St) (e : Ent) (cs : List Obj) :
     RegOk s (attachAll U s e cs).1 := by
   induction cs generalizing s with
   | nil => exact .refl s
@@ -52,7 +52,7 @@ theorem attachAll_regOk (U : Universe) (s : St) (e : Ent) (cs : List Obj) :
 theorem detach_reg (s : St) (e : Ent) (st : Ty) : (detach s e st).registered = s.registered := by
   unfold detach; simp only; split <;> rfl
 
-theorem removeComponent_regOk (U : Universe) (s : St) (e : Ent) (t : Ty) :
+theorem removeComponent_regOk (U : Universe) [U.NoReenter] (s : St) (e : Ent) (t : Ty) :
     RegOk s (removeComponent U s e t).1 := by
   unfold removeComponent
   cases hf : (visit U t).find? (fun st => (Dict.get? (row s e) st).isSome) with
@@ -79,7 +79,7 @@ theorem removeComponent_regOk (U : Universe) (s : St) (e : Ent) (t : Ty) :
             exact (h0 hn).sublist List.filter_sublist
           all_goals exact h0.trans (.of_eq h1)
 
-theorem removeTypes_regOk (U : Universe) (s : St) (e : Ent) (ts : List Ty) :
+theorem removeTypes_regOk (U : Universe) [U.NoReenter] (s : St) (e : Ent) (ts : List Ty) :
     RegOk s (removeTypes U s e ts).1 := by
   induction ts generalizing s with
   | nil => exact .refl s
@@ -137,7 +137,7 @@ theorem foldAttach_reg (U : Universe) (e : Ent) (cs : List Obj) (s : St) :
   | nil => rfl
   | cons c cs ih => simp only [List.foldl_cons]; rw [ih]; rfl
 
-theorem createEntity_regOk (U : Universe) (s : St) (id? : Option Ent) (cs : List Obj) :
+theorem createEntity_regOk (U : Universe) [U.NoReenter] (s : St) (id? : Option Ent) (cs : List Obj) :
     RegOk s (createEntity U s id? cs).1 := by
   unfold createEntity
   have key : ∀ (s0 : St) (e : Ent),
@@ -163,7 +163,7 @@ theorem createEntity_regOk (U : Universe) (s : St) (id? : Option Ent) (cs : List
     simp only
     exact fun hn => key { s with nextId := freshFrom (Dict.keys s.ents) ((Dict.keys s.ents).length + 1) s.nextId + 1 } _ hn
 
-theorem addComponent_regOk (U : Universe) (s : St) (e : Ent) (c : Obj) :
+theorem addComponent_regOk (U : Universe) [U.NoReenter] (s : St) (e : Ent) (c : Obj) :
     RegOk s (addComponent U s e c).1 := by
   unfold addComponent
   simp only
@@ -181,7 +181,7 @@ theorem addComponent_regOk (U : Universe) (s : St) (e : Ent) (c : Obj) :
     · exact removeComponent_regOk U s e (tyOf U c)
     · exact .refl s
 
-theorem deleteEntity_regOk (U : Universe) (s : St) (e : Ent) (imm : Bool) :
+theorem deleteEntity_regOk (U : Universe) [U.NoReenter] (s : St) (e : Ent) (imm : Bool) :
     RegOk s (deleteEntity U s e imm).1 := by
   unfold deleteEntity
   split
@@ -190,7 +190,7 @@ theorem deleteEntity_regOk (U : Universe) (s : St) (e : Ent) (imm : Bool) :
     · exact removeTypes_regOk U s e _
   · exact .of_eq rfl
 
-theorem sweep_regOk (U : Universe) (s : St) (es : List Ent) : RegOk s (sweep U s es).1 := by
+theorem sweep_regOk (U : Universe) [U.NoReenter] (s : St) (es : List Ent) : RegOk s (sweep U s es).1 := by
   induction es generalizing s with
   | nil => exact .refl s
   | cons e es ih =>
@@ -206,7 +206,7 @@ theorem sweep_regOk (U : Universe) (s : St) (es : List Ent) : RegOk s (sweep U s
         · exact h1.trans (ih s')
         all_goals exact h1
 
-theorem deliverFold_reg (U : Universe) (ev args : String) (l : List Obj) (acc : St × Outcome) :
+theorem deliverFold_reg (U : Universe) [U.NoReenter] (ev args : String) (l : List Obj) (acc : St × Outcome) :
     (l.foldl (fun (acc : St × Outcome) o =>
         match acc.2 with
         | .ok =>
@@ -225,12 +225,12 @@ theorem deliverFold_reg (U : Universe) (ev args : String) (l : List Obj) (acc : 
     · exact callCb_reg U a1 o _ _
     · rfl
 
-theorem deliverPlain_reg (U : Universe) (s : St) (ev args : String) :
+theorem deliverPlain_reg (U : Universe) [U.NoReenter] (s : St) (ev args : String) :
     (deliverPlain U s ev args).1.registered = s.registered := by
   unfold deliverPlain
   exact deliverFold_reg U ev args s.registered (s, .ok)
 
-theorem dispatchPlain_reg (U : Universe) (s : St) (ev args : String) :
+theorem dispatchPlain_reg (U : Universe) [U.NoReenter] (s : St) (ev args : String) :
     (dispatchPlain U s ev args).1.registered = s.registered := by
   unfold dispatchPlain
   split
@@ -239,7 +239,7 @@ theorem dispatchPlain_reg (U : Universe) (s : St) (ev args : String) :
     · rfl
     · exact deliverPlain_reg U s ev args
 
-theorem runProcs_reg (U : Universe) (s : St) (dt : String) (ps : List Obj) :
+theorem runProcs_reg (U : Universe) [U.NoReenter] (s : St) (dt : String) (ps : List Obj) :
     (runProcs U s dt ps).1.registered = s.registered := by
   induction ps generalizing s with
   | nil => rfl
@@ -264,7 +264,7 @@ theorem runProcs_reg (U : Universe) (s : St) (dt : String) (ps : List Obj) :
           · exact h1
       all_goals exact h1
 
-theorem process_regOk (U : Universe) (s : St) (dt : String) : RegOk s (process U s dt).1 := by
+theorem process_regOk (U : Universe) [U.NoReenter] (s : St) (dt : String) : RegOk s (process U s dt).1 := by
   unfold process
   have h1 : RegOk s (clearDead U s).1 := by
     unfold clearDead
@@ -278,7 +278,7 @@ theorem process_regOk (U : Universe) (s : St) (dt : String) : RegOk s (process U
     · exact h1.trans (.of_eq (runProcs_reg U s' dt _))
     all_goals exact h1
 
-theorem removeProcessor_regOk (U : Universe) (s : St) (t : Ty) :
+theorem removeProcessor_regOk (U : Universe) [U.NoReenter] (s : St) (t : Ty) :
     RegOk s (removeProcessor U s t).1 := by
   unfold removeProcessor
   cases hf : (visit U t).find? (fun st => (Dict.get? s.procs st).isSome) with
@@ -305,7 +305,7 @@ theorem removeProcessor_regOk (U : Universe) (s : St) (t : Ty) :
             exact (h0 hn).sublist List.filter_sublist
           all_goals exact h0.trans (.of_eq h1)
 
-theorem addProcessor_regOk (U : Universe) (s : St) (p : Obj) (prio? : Option Int) :
+theorem addProcessor_regOk (U : Universe) [U.NoReenter] (s : St) (p : Obj) (prio? : Option Int) :
     RegOk s (addProcessor U s p prio?).1 := by
   unfold addProcessor
   simp only
@@ -324,7 +324,7 @@ theorem addProcessor_regOk (U : Universe) (s : St) (p : Obj) (prio? : Option Int
     · exact removeProcessor_regOk U s _
     · exact .refl s
 
-theorem clear_regOk (U : Universe) (s : St) : RegOk s (clear U s).1 := by
+theorem clear_regOk (U : Universe) [U.NoReenter] (s : St) : RegOk s (clear U s).1 := by
   intro hn
   unfold clear
   have hda : ∀ (es : List Ent) (s0 : St), RegOk s0 (deleteAll U s0 es).1 := by
@@ -370,7 +370,7 @@ theorem clear_regOk (U : Universe) (s : St) : RegOk s (clear U s).1 := by
         all_goals exact h3
     all_goals exact h1
 
-theorem releaseQ_reg (U : Universe) (s : St) (qs : List QEv) :
+theorem releaseQ_reg (U : Universe) [U.NoReenter] (s : St) (qs : List QEv) :
     (releaseQ U s qs).1.registered = s.registered := by
   induction qs generalizing s with
   | nil => rfl
@@ -397,7 +397,7 @@ theorem releaseQ_reg (U : Universe) (s : St) (qs : List QEv) :
       · rw [ih, h1]
       all_goals exact h1
 
-theorem step_regOk (U : Universe) (s : St) (op : Op) : RegOk s (step U s op).1 := by
+theorem step_regOk (U : Universe) [U.NoReenter] (s : St) (op : Op) : RegOk s (step U s op).1 := by
   cases op with
   | create id? cs => exact createEntity_regOk U s id? cs
   | add e c => exact addComponent_regOk U s e c
@@ -415,7 +415,7 @@ theorem step_regOk (U : Universe) (s : St) (op : Op) : RegOk s (step U s op).1 :
     · exact .of_eq rfl
   | dispatch ev args => exact .of_eq (dispatchPlain_reg U s ev args)
 
-theorem registered_nodup_run (U : Universe) (hints : List (List Ent)) (ops : List Op) :
+theorem registered_nodup_run (U : Universe) [U.NoReenter] (hints : List (List Ent)) (ops : List Op) :
     (run U { sweepHints := hints } ops).registered.Nodup := by
   suffices H : ∀ s : St, s.registered.Nodup → (run U s ops).registered.Nodup from H _ List.nodup_nil
   induction ops with
